@@ -75,6 +75,10 @@ type nfsHarness struct {
 	failed     bool
 	probeCount int
 
+	emptiedBy map[string]string // routeKey -> route through which the last lock went away
+	zombies   []*nfsClient      // client objects whose server side state is gone
+	retx      map[*nfsClient]*retransmit
+
 	allow2oo bool // same-file use of one lock-owner through two open-owners may be generated
 	seen2oo  bool // ... and has been granted at least once in this case
 }
@@ -210,7 +214,7 @@ func runNFSCase(r *ev.Run, idx int) {
 	r.Case("nfs case=%d mode=%s clients=%d steps=%d pShared=%d 2oo=%v", idx, mode, nClients, steps, pShared, nfsCaseAllows2oo(idx))
 
 	h := &nfsHarness{r: r, idx: idx, mode: mode, rng: rng, w: newNFSWorld(rng, nFiles), probes: map[uint32]*nfsClient{}, allow2oo: nfsCaseAllows2oo(idx),
-		ownerIDs: map[string]int{}, wireOwner: map[string]int{}, situations: map[string]bool{}}
+		ownerIDs: map[string]int{}, wireOwner: map[string]int{}, situations: map[string]bool{}, emptiedBy: map[string]string{}, retx: map[*nfsClient]*retransmit{}}
 	for f := 0; f < nFiles; f++ {
 		h.models = append(h.models, newFileModel(0))
 	}
@@ -246,18 +250,35 @@ func runNFSCase(r *ev.Run, idx int) {
 		h.w.clock.Advance(nfsStepDelay, nil)
 		c := h.clients[rng.IntN(len(h.clients))]
 		switch roll := rng.IntN(100); {
-		case roll < 42:
+		case roll < 36:
 			h.stepLock(step, c, pShared)
-		case roll < 60:
+		case roll < 50:
 			h.stepLockT(step, c, pShared)
-		case roll < 75:
+		case roll < 63:
 			h.stepLockU(step, c)
-		case roll < 83:
+		case roll < 70:
 			h.stepClose(step, c)
-		case roll < 91:
+		case roll < 77:
 			h.stepRelease(step, c)
-		default:
+		case roll < 84:
 			h.stepExpire(step, c)
+		case roll < 88:
+			h.stepReopen(step, c)
+		case roll < 93:
+			// Version specific request forms.
+			if c.minor == 0 {
+				h.stepRetransmit(step, c, pShared)
+			} else {
+				h.stepCurrentStateID(step, c, pShared)
+			}
+		case roll < 96:
+			if c.minor == 1 {
+				h.stepSessionRecreate(step, c)
+			} else {
+				h.stepLockT(step, c, pShared)
+			}
+		default:
+			h.stepRebootDuringIO(step, c)
 		}
 		if h.failed {
 			break
@@ -267,7 +288,10 @@ func runNFSCase(r *ev.Run, idx int) {
 				h.fail("C20 "+h.tag()+" model-invariant", fmt.Sprintf("file %d: %s", f, inv), nil)
 			}
 		}
-		h.probeAll(step)
+		h.probeAll(step, nil)
+	}
+	if !h.failed {
+		h.staleBattery(steps)
 	}
 
 	r.Count("nfs_steps", len(h.ops))
@@ -297,53 +321,95 @@ func runNFSCase(r *ev.Run, idx int) {
 	}
 }
 
-func (h *nfsHarness) stepLock(step int, c *nfsClient, pShared int) {
+// lockCtx is one LOCK request as the harness intends it.
+type lockCtx struct {
+	oo    string
+	f     int
+	lo    string
+	nr    nfsRange
+	lt    nfsv4_xdr.NfsLockType4
+	t     uint8
+	owner int
+
+	forceNew          bool
+	viaOtherSameFile  bool
+	viaOtherOtherFile bool
+	sameOOOtherFile   bool
+	what              string // operation name used in logs and signatures
+}
+
+// prepareLock draws a LOCK request and makes sure the file is open.
+func (h *nfsHarness) prepareLock(c *nfsClient, pShared int) (lockCtx, bool) {
 	rng := h.rng
-	oo := nfsOpenOwners[rng.IntN(len(nfsOpenOwners))]
-	f := rng.IntN(len(h.models))
-	lo := nfsLockOwners[rng.IntN(len(nfsLockOwners))]
-	if !h.allow2oo && otherOpenOwnerHasLockState(c, oo, f, lo) {
+	lc := lockCtx{what: "LOCK"}
+	lc.oo = nfsOpenOwners[rng.IntN(len(nfsOpenOwners))]
+	lc.f = rng.IntN(len(h.models))
+	lc.lo = nfsLockOwners[rng.IntN(len(nfsLockOwners))]
+	if !h.allow2oo && otherOpenOwnerHasLockState(c, lc.oo, lc.f, lc.lo) {
 		// Use the open-owner that lock-owner already uses on this file.
-		for k := range c.locks {
-			if k.lo == lo && k.file == f {
-				oo = k.oo
+		for _, k := range sortedLockKeys(c) {
+			if k.lo == lc.lo && k.file == lc.f {
+				lc.oo = k.oo
 			}
 		}
 	}
-	if !h.ensureOpen(c, oo, f) {
+	if !h.ensureOpen(c, lc.oo, lc.f) {
+		return lc, false
+	}
+	lc.nr = genNFSRange(rng)
+	lc.lt = genNFSLockType(rng, pShared, false)
+	lc.t, _ = nfsTypeOf(lc.lt)
+	lc.owner = h.ownerID(c, lc.lo)
+	_, haveState := c.locks[lockKey{lc.oo, lc.f, lc.lo}]
+	lc.forceNew = c.minor == 1 && haveState && rng.IntN(4) == 0
+	h.fillLockRelations(c, &lc)
+	return lc, true
+}
+
+// fillLockRelations records how the lock-owner is already in use.
+func (h *nfsHarness) fillLockRelations(c *nfsClient, lc *lockCtx) {
+	lc.viaOtherSameFile = otherOpenOwnerHasLockState(c, lc.oo, lc.f, lc.lo)
+	for k := range c.locks {
+		if k.lo == lc.lo && k.file != lc.f {
+			if k.oo != lc.oo {
+				lc.viaOtherOtherFile = true
+			} else {
+				lc.sameOOOtherFile = true
+			}
+		}
+	}
+}
+
+func (h *nfsHarness) stepLock(step int, c *nfsClient, pShared int) {
+	lc, ok := h.prepareLock(c, pShared)
+	if !ok {
 		return
 	}
-	nr := genNFSRange(rng)
-	lt := genNFSLockType(rng, pShared, false)
-	t, _ := nfsTypeOf(lt)
-	owner := h.ownerID(c, lo)
-	m := h.models[f]
-	_, haveState := c.locks[lockKey{oo, f, lo}]
-	forceNew := c.minor == 1 && haveState && rng.IntN(4) == 0
-
-	viaOtherSameFile := otherOpenOwnerHasLockState(c, oo, f, lo)
-	viaOtherOtherFile := false
-	sameOOOtherFile := false
-	for k := range c.locks {
-		if k.lo == lo && k.file != f {
-			if k.oo != oo {
-				viaOtherOtherFile = true
-			} else {
-				sameOOOtherFile = true
-			}
-		}
-	}
-
-	res, isNew, ce := c.lock(oo, f, lo, nr.Offset, nr.Length, lt, forceNew)
-	detail := fmt.Sprintf("oo=%s file=%d lo=%s %v type=%d new=%v", oo, f, lo, nr, lt, isNew)
+	res, isNew, ce := c.lock(lc.oo, lc.f, lc.lo, lc.nr.Offset, lc.nr.Length, lc.lt, lc.forceNew)
 	if ce != nil {
-		h.log(step, c, "LOCK", detail, ce.Error(), "")
-		if ce.Panic != nil && isNew && viaOtherSameFile {
+		h.log(step, c, lc.what, h.lockDetail(lc, isNew), ce.Error(), "")
+		if ce.Panic != nil && isNew && lc.viaOtherSameFile {
 			h.seen2oo = true
 		}
 		h.clientFailed(c, ce)
 		return
 	}
+	if h.judgeLock(step, c, lc, isNew, res) && c.minor == 0 {
+		h.rememberForRetransmit(c, lc, isNew, res)
+	}
+}
+
+func (h *nfsHarness) lockDetail(lc lockCtx, isNew bool) string {
+	return fmt.Sprintf("oo=%s file=%d lo=%s %v type=%d new=%v", lc.oo, lc.f, lc.lo, lc.nr, lc.lt, isNew)
+}
+
+// judgeLock compares the reply to a LOCK request with the model and, if the
+// lock was granted, updates the model. It returns false if it reported a
+// violation.
+func (h *nfsHarness) judgeLock(step int, c *nfsClient, lc lockCtx, isNew bool, res nfsv4_xdr.Lock4res) bool {
+	f, owner, nr, t := lc.f, lc.owner, lc.nr, lc.t
+	m := h.models[f]
+	detail := h.lockDetail(lc, isNew)
 	observed := fmt.Sprintf("status=%d", res.GetStatus())
 	if d, ok := res.(*nfsv4_xdr.Lock4res_NFS4ERR_DENIED); ok {
 		observed = deniedString(&d.Denied)
@@ -354,19 +420,21 @@ func (h *nfsHarness) stepLock(step int, c *nfsClient, pShared int) {
 	minor := fmt.Sprint(c.minor)
 	switch {
 	case !nr.valid:
-		h.log(step, c, "LOCK", detail, observed, "NFS4ERR_INVAL")
+		h.log(step, c, lc.what, detail, observed, "NFS4ERR_INVAL")
 		if res.GetStatus() != nfsv4_xdr.NFS4ERR_INVAL {
-			h.fail("C20 "+h.tag()+" conversion-not-rejected op=LOCK shape="+nr.Shape+" minor="+minor, fmt.Sprintf("step %d: LOCK %s must fail with NFS4ERR_INVAL, observed %s", step, detail, observed), nil)
+			h.fail("C20 "+h.tag()+" conversion-not-rejected op=LOCK shape="+nr.Shape+" minor="+minor, fmt.Sprintf("step %d: %s %s must fail with NFS4ERR_INVAL, observed %s", step, lc.what, detail, observed), nil)
+			return false
 		}
 	case m.conflict(owner, nr.cr, t):
-		h.log(step, c, "LOCK", detail, observed, "NFS4ERR_DENIED")
+		h.log(step, c, lc.what, detail, observed, "NFS4ERR_DENIED")
 		h.situations["denied"] = true
 		d, isDenied := res.(*nfsv4_xdr.Lock4res_NFS4ERR_DENIED)
 		if !isDenied {
-			h.fail("C20 "+h.tag()+" lock-granted-despite-conflict minor="+minor, fmt.Sprintf("step %d: LOCK %s by %s conflicts with another owner, observed %s; model %s", step, detail, h.ownerName(owner), observed, m), nil)
-			return
+			h.fail("C20 "+h.tag()+" lock-granted-despite-conflict minor="+minor, fmt.Sprintf("step %d: %s %s by %s conflicts with another owner, observed %s; model %s", step, lc.what, detail, h.ownerName(owner), observed, m), nil)
+			return false
 		}
 		h.checkDenied("LOCK", c, f, owner, nr.cr, t, &d.Denied)
+		return !h.failed
 	default:
 		if m.holdsAnyIn(owner, nr.cr) {
 			h.situations["own-lock-does-not-block"] = true
@@ -375,31 +443,53 @@ func (h *nfsHarness) stepLock(step int, c *nfsClient, pShared int) {
 			h.situations["range-ending-at-max"] = true
 		}
 		classifySetSituations(m, owner, nr.cr, t, h.situations)
-		h.log(step, c, "LOCK", detail, observed, "NFS4_OK")
+		h.log(step, c, lc.what, detail, observed, "NFS4_OK")
 		if res.GetStatus() != nfsv4_xdr.NFS4_OK {
 			sig := "C20 " + h.tag() + " lock-denied-without-conflict new=" + fmt.Sprint(isNew) + " minor=" + minor
 			if d, ok := res.(*nfsv4_xdr.Lock4res_NFS4ERR_DENIED); ok && h.lookupWire(&d.Denied.Owner) == owner {
 				sig = "C20 " + h.tag() + " owner-blocked-by-own-lock op=LOCK new=" + fmt.Sprint(isNew) + " minor=" + minor
 			}
-			h.fail(sig, fmt.Sprintf("step %d: LOCK %s by %s conflicts with nobody, observed %s; model %s", step, detail, h.ownerName(owner), observed, m), nil)
-			return
+			h.fail(sig, fmt.Sprintf("step %d: %s %s by %s conflicts with nobody, observed %s; model %s", step, lc.what, detail, h.ownerName(owner), observed, m), nil)
+			return false
+		}
+		if route, ok := h.emptiedBy[h.routeKey(c, lc.lo, f)]; ok {
+			h.situations["relock-after:"+route] = true
+			delete(h.emptiedBy, h.routeKey(c, lc.lo, f))
 		}
 		m.set(owner, nr.cr, t)
 		if isNew {
-			if viaOtherSameFile {
+			if lc.viaOtherSameFile {
 				h.situations["same-lock-owner-via-two-open-owners:same-file"] = true
 				h.seen2oo = true
 			}
-			if viaOtherOtherFile {
+			if lc.viaOtherOtherFile {
 				h.situations["same-lock-owner-via-two-open-owners:two-files"] = true
 			}
-			if sameOOOtherFile {
+			if lc.sameOOOtherFile {
 				h.situations["same-lock-owner-on-two-files"] = true
 			}
-			if forceNew {
+			if lc.forceNew {
 				h.situations["open-to-lock-owner-form-repeated"] = true
 			}
 		}
+	}
+	return true
+}
+
+// routeKey names (client slot, lock-owner, file) across client
+// re-registrations.
+func (h *nfsHarness) routeKey(c *nfsClient, lo string, f int) string {
+	return fmt.Sprintf("%s/%s/%d", c.name, lo, f)
+}
+
+// noteEmptied records through which route the last lock of a lock-owner on a
+// file went away, so that a later LOCK by the same lock-owner is counted as a
+// situation.
+func (h *nfsHarness) noteEmptied(c *nfsClient, lo string, f int, heldBefore bool, route string) {
+	owner := h.ownerID(c, lo)
+	if heldBefore && !h.models[f].holdsAny(owner) {
+		h.emptiedBy[h.routeKey(c, lo, f)] = route
+		h.situations["last-lock-gone-by:"+route] = true
 	}
 }
 
@@ -502,31 +592,43 @@ func (h *nfsHarness) stepLockU(step int, c *nfsClient) {
 	}
 	k := ks[h.rng.IntN(len(ks))]
 	nr := genNFSRange(h.rng)
-	owner := h.ownerID(c, k.lo)
-	m := h.models[k.file]
-	detail := fmt.Sprintf("oo=%s file=%d lo=%s %v", k.oo, k.file, k.lo, nr)
 	res, ce := c.locku(k.oo, k.file, k.lo, nr.Offset, nr.Length)
 	if ce != nil {
-		h.log(step, c, "LOCKU", detail, ce.Error(), "")
+		h.log(step, c, "LOCKU", fmt.Sprintf("oo=%s file=%d lo=%s %v", k.oo, k.file, k.lo, nr), ce.Error(), "")
 		h.clientFailed(c, ce)
 		return
 	}
+	if h.judgeLockU(step, c, k, nr, res, "LOCKU") && c.minor == 0 {
+		h.rememberUnlockForRetransmit(c, k, nr, res)
+	}
+}
+
+// judgeLockU compares the reply to a LOCKU request with the expectation
+// (unlocking always succeeds for a valid range) and updates the model.
+func (h *nfsHarness) judgeLockU(step int, c *nfsClient, k lockKey, nr nfsRange, res nfsv4_xdr.Locku4res, what string) bool {
+	owner := h.ownerID(c, k.lo)
+	m := h.models[k.file]
+	detail := fmt.Sprintf("oo=%s file=%d lo=%s %v", k.oo, k.file, k.lo, nr)
 	observed := fmt.Sprintf("status=%d", res.GetStatus())
 	minor := fmt.Sprint(c.minor)
 	if !nr.valid {
-		h.log(step, c, "LOCKU", detail, observed, "NFS4ERR_INVAL")
+		h.log(step, c, what, detail, observed, "NFS4ERR_INVAL")
 		if res.GetStatus() != nfsv4_xdr.NFS4ERR_INVAL {
-			h.fail("C20 "+h.tag()+" conversion-not-rejected op=LOCKU shape="+nr.Shape+" minor="+minor, fmt.Sprintf("step %d: LOCKU %s must fail with NFS4ERR_INVAL, observed %s", step, detail, observed), nil)
+			h.fail("C20 "+h.tag()+" conversion-not-rejected op=LOCKU shape="+nr.Shape+" minor="+minor, fmt.Sprintf("step %d: %s %s must fail with NFS4ERR_INVAL, observed %s", step, what, detail, observed), nil)
+			return false
 		}
-		return
+		return true
 	}
-	h.log(step, c, "LOCKU", detail, observed, "NFS4_OK")
+	h.log(step, c, what, detail, observed, "NFS4_OK")
 	if res.GetStatus() != nfsv4_xdr.NFS4_OK {
-		h.fail("C20 "+h.tag()+" unlock-failed minor="+minor, fmt.Sprintf("step %d: LOCKU %s by %s: %s", step, detail, h.ownerName(owner), observed), nil)
-		return
+		h.fail("C20 "+h.tag()+" unlock-failed minor="+minor, fmt.Sprintf("step %d: %s %s by %s: %s", step, what, detail, h.ownerName(owner), observed), nil)
+		return false
 	}
 	classifySetSituations(m, owner, nr.cr, tNone, h.situations)
+	held := m.holdsAny(owner)
 	m.set(owner, nr.cr, tNone)
+	h.noteEmptied(c, k.lo, k.file, held, "locku")
+	return true
 }
 
 func (h *nfsHarness) stepClose(step int, c *nfsClient) {
@@ -553,10 +655,12 @@ func (h *nfsHarness) stepClose(step int, c *nfsClient) {
 	// open are released on this file; nothing else is.
 	for _, lo := range los {
 		owner := h.ownerID(c, lo)
-		if h.models[k.file].holdsAny(owner) {
+		held := h.models[k.file].holdsAny(owner)
+		if held {
 			h.situations["close-with-locks-held"] = true
 		}
 		h.models[k.file].clearOwner(owner)
+		h.noteEmptied(c, lo, k.file, held, "close")
 	}
 }
 
@@ -583,6 +687,14 @@ func (h *nfsHarness) stepRelease(step int, c *nfsClient) {
 			h.situations["release-lockowner-without-locks"] = true
 		}
 		h.log(step, c, "RELEASE_LOCKOWNER", lo, fmt.Sprintf("status=%d", st), fmt.Sprintf("status=%d", want))
+		if st == nfsv4_xdr.NFS4_OK {
+			for f := range h.models {
+				if _, ok := h.emptiedBy[h.routeKey(c, lo, f)]; ok {
+					h.emptiedBy[h.routeKey(c, lo, f)] = "release-lockowner"
+					h.situations["last-lock-gone-by:release-lockowner"] = true
+				}
+			}
+		}
 		if st != want {
 			h.fail("C20 "+h.tag()+" release-lockowner-status held="+fmt.Sprint(held), fmt.Sprintf("step %d: RELEASE_LOCKOWNER of %s (holds locks: %v) returned status %d, expected %d", step, h.ownerName(owner), held, st, want), nil)
 		}
@@ -594,6 +706,15 @@ func (h *nfsHarness) stepRelease(step int, c *nfsClient) {
 		return
 	}
 	k := ks[h.rng.IntN(len(ks))]
+	if h.rng.IntN(2) == 0 {
+		// Prefer lock state whose last lock is gone already.
+		for _, cand := range ks {
+			if !h.models[cand.file].holdsAny(h.ownerID(c, cand.lo)) {
+				k = cand
+				break
+			}
+		}
+	}
 	owner := h.ownerID(c, k.lo)
 	held := h.models[k.file].holdsAny(owner)
 	detail := fmt.Sprintf("oo=%s file=%d lo=%s", k.oo, k.file, k.lo)
@@ -614,6 +735,12 @@ func (h *nfsHarness) stepRelease(step int, c *nfsClient) {
 		h.situations["free-stateid-without-locks"] = true
 	}
 	h.log(step, c, "FREE_STATEID", detail, fmt.Sprintf("status=%d", st), fmt.Sprintf("status=%d", want))
+	if st == nfsv4_xdr.NFS4_OK {
+		if _, ok := h.emptiedBy[h.routeKey(c, k.lo, k.file)]; ok {
+			h.emptiedBy[h.routeKey(c, k.lo, k.file)] = "free-stateid"
+			h.situations["last-lock-gone-by:free-stateid"] = true
+		}
+	}
 	if st != want {
 		h.fail("C20 "+h.tag()+" free-stateid-status held="+fmt.Sprint(held)+" minor="+minor, fmt.Sprintf("step %d: FREE_STATEID %s of %s (holds locks on that file: %v) returned status %d, expected %d", step, detail, h.ownerName(owner), held, st, want), nil)
 	}
@@ -655,19 +782,11 @@ func (h *nfsHarness) stepExpire(step int, victim *nfsClient) {
 	if !others() {
 		return
 	}
-	held := false
-	for _, lo := range nfsLockOwners {
-		owner := h.ownerID(victim, lo)
-		for _, m := range h.models {
-			if m.holdsAny(owner) {
-				held = true
-			}
-			m.clearOwner(owner)
-		}
-	}
+	held := h.clearClient(victim, "lease-expiry")
 	if held {
 		h.situations["lease-expiry-with-locks-held"] = true
 	}
+	h.zombies = append(h.zombies, victim)
 	h.log(step, victim, "EXPIRE", "", "", "all locks of the client released, nothing else")
 	for i, c := range h.clients {
 		if c == victim {
@@ -681,6 +800,22 @@ func (h *nfsHarness) stepExpire(step int, victim *nfsClient) {
 	}
 }
 
+// clearClient removes every lock of client c from the model (its state was
+// discarded by the server) and tells whether it held any.
+func (h *nfsHarness) clearClient(c *nfsClient, route string) bool {
+	heldAny := false
+	for _, lo := range nfsLockOwners {
+		owner := h.ownerID(c, lo)
+		for f, m := range h.models {
+			held := m.holdsAny(owner)
+			heldAny = heldAny || held
+			m.clearOwner(owner)
+			h.noteEmptied(c, lo, f, held, route)
+		}
+	}
+	return heldAny
+}
+
 // stepReboot lets victim register again under the same client name with a
 // new verifier, as a rebooted client does. Confirming the new registration
 // makes the server discard the state of the old one, including its locks.
@@ -692,19 +827,11 @@ func (h *nfsHarness) stepReboot(step int, victim *nfsClient) {
 		h.clientFailed(n, ce)
 		return
 	}
-	held := false
-	for _, lo := range nfsLockOwners {
-		owner := h.ownerID(victim, lo)
-		for _, m := range h.models {
-			if m.holdsAny(owner) {
-				held = true
-			}
-			m.clearOwner(owner)
-		}
-	}
+	held := h.clearClient(victim, "client-reboot")
 	if held {
 		h.situations["client-reboot-with-locks-held"] = true
 	}
+	h.zombies = append(h.zombies, victim)
 	h.log(step, victim, "REBOOT", "", "", "all locks of the old client instance released, nothing else")
 	for i, c := range h.clients {
 		if c == victim {
@@ -716,7 +843,7 @@ func (h *nfsHarness) stepReboot(step int, victim *nfsClient) {
 // probeAll compares, for every file, byte cell and lock type, what LOCKT
 // says with the model: by a client that never locks anything, and by every
 // (client, lock-owner) that exists in the model.
-func (h *nfsHarness) probeAll(step int) {
+func (h *nfsHarness) probeAll(step int, skip *nfsClient) {
 	type prober struct {
 		c     *nfsClient
 		lo    string
@@ -729,6 +856,10 @@ func (h *nfsHarness) probeAll(step int) {
 		}
 	}
 	for _, c := range h.clients {
+		if c == skip {
+			// This client has a request in flight.
+			continue
+		}
 		for _, lo := range nfsLockOwners {
 			if id, ok := h.ownerIDs[fmt.Sprintf("%d/%s", c.gen, lo)]; ok {
 				ps = append(ps, prober{c, lo, id})
